@@ -16,4 +16,4 @@ for id in "$@"; do
 done
 git -C /repo worktree remove --force "$W"
 # leave /verif pointing at /repo again
-(cd /verif && sed "s|@REPO@|/repo|" harness/go.mod.tmpl > harness/go.mod)
+(cd /verif && flock /verif/.build.lock sh -c 'sed "s|@REPO@|/repo|" harness/go.mod.tmpl > harness/go.mod')
